@@ -1,6 +1,7 @@
 """A.1 — dedup gates, clock absorption, stamping (GATE, ABSORB, STAMP)."""
 from ..core import rule
 from .common import *
+from ..terms import drop_lv
 
 GATED = [
     # (instance, adt, op adt, gated variants or None when the gate precedes the match)
@@ -76,14 +77,27 @@ def gate(ctx):
 
 
 def _merkle_atoms(hash_found):
+    def look(t):
+        # a lookup of the op's own hash in a field of self -> the field path
+        if len(t[2]) == 2:
+            pp = param_path(t[2][0])
+            k = versionless(t[2][1])
+            if pp and pp[0] == 1 and is_call(k, 'hash') and k[2] and versionless(k[2][0]) == ('param', 2):
+                return pp[1]
+        return None
+
     def atom(t):
         if is_call(t, 'contains_key') or is_call(t, 'contains'):
-            if len(t[2]) == 2:
-                pp = param_path(t[2][0])
-                k = versionless(t[2][1])
-                if pp and pp[0] == 1 and is_call(k, 'hash') and k[2] and versionless(k[2][0]) == ('param', 2):
-                    hash_found.append(pp[1])
-                    return 'in_' + '.'.join(pp[1])
+            f = look(t)
+            if f:
+                hash_found.append(f)
+                return 'in_' + '.'.join(f)
+        # presence spelled through a lookup: `get(h).is_some()`, `match get(h) { Some(..) .. }`, `node(h)` = dag.get(h).or_else(orphans.get(h))
+        if t[0] == 'discr' and is_call(drop_lv(t[1]), ('get', 'get_key_value')):
+            f = look(drop_lv(t[1]))
+            if f:
+                hash_found.append(f)
+                return ('map', 'in_' + '.'.join(f), {True: 1, False: 0})
         return None
     return atom
 
@@ -101,6 +115,8 @@ def gate_merkle(ctx):
     found = []
     evr = Evaluator(facts, bool_atom=_merkle_atoms(found), assumption={})
     Reach(facts, body, evr)
+    # a lookup that is only evaluated when an earlier one missed (`dag.get(h).or_else(|| orphans.get(h))`) shows up under that outcome
+    Reach(facts, body, Evaluator(facts, bool_atom=_merkle_atoms(found), assumption={'in_dag': False, 'in_orphans': False}))
     fields = sorted(set(found))
     if ('dag',) not in fields or ('orphans',) not in fields:
         ctx.fail('merkle', body, 'apply does not test the node hash against both dag and orphans (found: %s)' % fields)
